@@ -364,8 +364,13 @@ class Exec:
                         break
             first = False
             saved_ce, self._cont_envs = getattr(self, "_cont_envs", None), None
+            n_tmp = len(tmp)
             st = self.block(body, tmp)
             self._cont_envs = saved_ce
+            if st == "fall" and self._jumps_conditionally(tmp[n_tmp:]):
+                # a `break` / `continue` under a condition that is not a constant (a search): the iterations that follow depend on
+                # it -- this loop cannot be written out as straight-line code
+                return fail()
             if st in ("return", "exit"):
                 out.extend(tmp)
                 return st
@@ -378,6 +383,17 @@ class Exec:
                 return fail()
         out.extend(tmp)
         return "fall"
+
+    @staticmethod
+    def _jumps_conditionally(effs):
+        for x in effs:
+            if x["e"] in ("break", "continue"):
+                return True
+            if x["e"] == "if" and (Exec._jumps_conditionally(x["then"]) or Exec._jumps_conditionally(x["else"])):
+                return True
+            if x["e"] == "inlined" and False:
+                return True
+        return False
 
     def _forrange_counted(self, node, out):
         """for (T &e : v) over a local std::vector<T> v(n) or a local array: the counted loop u in [0, n) with e = v[u]"""
